@@ -504,6 +504,12 @@ func (in *interp) callSSA(caller *frame, callpos token.Pos, fn *ssa.Function, ar
 	}
 	path := fnPkgPath(fn)
 	cfg := in.x.cfg
+	if kind, ok := cfg.Stubs[name]; ok {
+		in.x.mu.Lock()
+		in.x.stubsUsed[name+" => "+kind] = true
+		in.x.mu.Unlock()
+		return zero(fn.Signature.Results())
+	}
 	if fn.Name() == "init" && fn.Signature.Recv() == nil && fn.Parent() == nil && fn.Pkg != nil && fn.Synthetic == "package initializer" {
 		if !cfg.shouldInit(path) || in.inited[fn.Pkg] {
 			return nil
